@@ -228,7 +228,7 @@ func mkTime(t time.Time) Time {
 }
 
 // Real9 is a real number at the precision of CFF DICT reals: a 9-digit decimal mantissa
-// and exponent; S is the exact value.
+// (100000000..999999999, value = M * 10^E) and exponent; S is the exact value.
 type Real9 struct {
 	M int    `json:"m"`
 	E int    `json:"e"`
@@ -244,10 +244,6 @@ func mkReal9(x float64) Real9 {
 	mant = strings.Replace(mant, ".", "", 1)
 	m, _ := strconv.Atoi(mant)
 	e, _ := strconv.Atoi(exp)
-	for m != 0 && m%10 == 0 {
-		m /= 10
-		e++
-	}
 	return Real9{M: m, E: e - 8, S: FloatString(x)}
 }
 
